@@ -91,8 +91,8 @@ reg("C04",
     "per-resolution complete decision table (de Bruijn sequence over all 32x32 note pairs x distances x flags) + Hypothesis tracks against the natural-HOPO rule",
     "Exploration by generated-input search, exhaustive per enumerated resolution: for each of 21 (quick) / "
     "221 (thorough) resolutions every ordered pair of the 32 lane combinations at distances "
-    "thr-1/thr/thr+1/1/2thr+1/10res with every (tap, forced) combination is parsed and compared with the "
-    "rule; Hypothesis adds random resolutions up to 10^6, random gaps around the threshold, random flags "
+    "thr-1/thr/thr+1/1/2thr+1/10res with every (tap, forced) combination, with and without sustains that "
+    "end before / overlap the next note, is parsed and compared with the rule; Hypothesis adds random resolutions up to 10^6, random gaps around the threshold, random flags "
     "and positions. Resolutions not enumerated are only sampled.",
     "threshold oracle (2*res+3)//6; forced flag never on the first note.",
     "DESIGN.md section 4, C04")
@@ -196,7 +196,7 @@ reg("C18",
     "Hypothesis mutation sequences and fragment assembly plus coverage-guided fuzzing (atheris/libFuzzer, structure-aware decoder and raw text with dictionary) with an exception-class / render oracle inside the target",
     "Exploration by generated-input search: 1..8/16 line- and character-level edits of rendered well-formed "
     "charts with a dictionary of corner-value fragments, texts assembled from arbitrary fragments, and "
-    "atheris campaigns (4 processes x 12k runs quick, 16 x 400k thorough; structured and raw decoders, "
+    "atheris campaigns (4 processes x 12k runs quick, 16 x 300k thorough; structured and raw decoders, "
     "empty and seeded corpora, chartparse instrumented for coverage). Any exception other than "
     "ValueError / RegexNotMatchError / MissingRequiredField, or a failing str()/repr() of a returned "
     "chart or event, is a violation; crashes are delta-debugged into replay files.",
@@ -224,7 +224,7 @@ reg("C17",
     "with sequential parses, selections and 2-4 concurrent parses under a 1 us switch interval or a "
     "line-granular cooperative scheduler driven by a drawn schedule; every result must equal the "
     "parse of the same text alone in a fresh interpreter (two PYTHONHASHSEEDs), repeated parses must "
-    "be ==. 144 histories quick, 2400 thorough. Schedules are sampled at line granularity only.",
+    "be ==, and must iterate / render identically (iteration order of instrument_tracks, str(), repr()) under different PYTHONHASHSEEDs. 300 histories quick, 2400 thorough. Schedules are sampled at line granularity only.",
     "Workers are python -S subprocesses; a worker timeout is inconclusive (exit 2), never a violation; "
     "failing histories are reduced greedily instead of with the Hypothesis shrinker.",
     "DESIGN.md section 4, C17")
@@ -232,7 +232,7 @@ reg("C17",
 reg("C20",
     "exhaustive enumeration of first imports and ordered pairs plus Hypothesis-drawn import permutations, each in a fresh interpreter, against the reference order's public-name and object-identity dump",
     "Exploration by generated programs: all 12 first imports and all 132 ordered pairs (exhaustive every "
-    "run), README-style from-imports, and 48/1100 sampled longer permutations, one fresh interpreter "
+    "run), README-style from-imports, and 48/4000 sampled longer permutations, one fresh interpreter "
     "each; every import must succeed and the dump of public names (type, module, qualname) and of "
     "the identity partition must equal the reference order's.",
     "Client programs are reduced to import orders; the remaining modules are imported canonically "
